@@ -31,7 +31,11 @@ def run(chk):
     comp = chk.anchor("C18.anchor/compile", f.fn("compile", "rssl", path_contains="compile::compile"), "rssl::compile")
     bp = chk.anchor("C18.anchor/build_pipeline", f.fn("build_pipeline", "rssl"), "build_pipeline")
     if comp:
-        rule_front(chk, comp)
+        # compile() read as a table of stage calls per target; the MIR slice rules are the fallback
+        if rule_front_eval(chk, comp):
+            rule_defines_eval(chk, comp)
+        else:
+            rule_front(chk, comp)
     rule_confine(chk)
     if bp:
         rule_arms(chk, bp)
@@ -52,6 +56,37 @@ def run(chk):
             chk.ob("C18.tables/descriptor/%s" % k, a == b, "%s -> %s on every target" % (k, a) if a == b else
                    "descriptor kind of %s differs between targets: HLSL %s, MSL %s" % (k, a, b), "hlsl/msl analyse_bindings", sample={"object": k, "hlsl": a, "msl": b})
         chk.floor("C18.floor/descriptor-table", len(tabs["hlsl"]), 20, "descriptor table entries")
+def rule_front_eval(chk, comp):
+    """compile() walked with scripted stages for every target: the same front-end stages run in the same order whatever
+    the target is (with and without layout validation, in pipeline and no-pipeline mode). True when readable."""
+    import compilemodel as CMP
+    f = chk.facts
+    targets = f.variants("Target", "rssl") or []
+    FRONT = ("preprocess", "prepare_tokens", "parse", "type_check", "check_layout")
+    bad = None
+    n = 0
+    for kw in (dict(), dict(validate_layout=False), dict(no_pipeline_mode=True), dict(pipeline_name="B"), dict(fail="type_check"), dict(fail="check_layout")):
+        seen = {}
+        for tgt in targets:
+            r = CMP.run_compile(f, comp, CMP.Scenario(target=tgt, **kw))
+            if r.result[0] == "unreadable":
+                chk.note("C18.front: compile() is not readable (%s); the slice rules decide" % r.result[1])
+                return False
+            n += 1
+            seen[tgt] = ([c for c in r.calls if c in FRONT], r.result[:2] if r.result[0] == "Err" else r.result[0])
+        ref = seen[targets[0]]
+        for tgt in targets:
+            if seen[tgt] != ref:
+                bad = bad or "with %s: for %s the front end runs %s and compile gives %s, for %s it runs %s and gives %s" % (kw or "default options", targets[0], ref[0], ref[1], tgt, seen[tgt][0], seen[tgt][1])
+        want_front = [x for x in FRONT if not (x == "check_layout" and kw.get("validate_layout") is False)]
+        if kw.get("fail"):
+            want_front = want_front[:want_front.index(kw["fail"]) + 1]
+        if ref[0] != want_front:
+            bad = bad or "with %s the front end runs %s, must be %s" % (kw or "default options", ref[0], want_front)
+    chk.ob("C18.front/model", bad is None, "%d runs: every target runs the same front-end stages in the same order and gets the same verdict from them" % n if bad is None else bad, where(comp),
+           sample={"runs": n})
+    return True
+
 
 class _Captured(Exception):
     def __init__(self, value):
